@@ -169,6 +169,9 @@ func (t *tcase) observe() map[string]string {
 			np++
 		}
 	}
+	if used := t.ctl.TakeUsedAfterDelete(); len(used) > 0 {
+		t.violate("deleted-space-still-used", map[string]string{"call": strings.SplitN(used[0], " ", 2)[0]}, map[string]interface{}{"calls": used})
+	}
 	if np > 1 || t.ctl.MaxFlight > 1 {
 		t.violate("more-than-one-space-plotting", nil, map[string]interface{}{"plotting_states": np, "max_plots_in_flight": t.ctl.MaxFlight})
 	}
